@@ -12,7 +12,7 @@ THEOREMS = ["Frost.C14.naf_limbs_in_bounds", "Frost.C14.naf_total", "Frost.C14.m
             "Frost.C14.refresh_dkg_part2_no_panic", "Frost.C14.refresh_dkg_shares_no_panic",
             "Frost.C14.repair_no_panic", "Frost.C14.reconstruct_no_panic", "Frost.C14.batch_no_panic",
             "Frost.C14.hooks_default", "Frost.C14.hooks_taproot", "Frost.C14.taproot_entry_points_no_panic",
-            "Frost.C14.decoders_total", "Frost.C14.resumed_steps_no_panic", "Frost.C14.part1_state_honest"]
+            "Frost.C14.decoders_total", "Frost.C14.resumed_steps_no_panic", "Frost.C14.part1_state_honest", "Frost.C14.rerandomized_entry_points_no_panic"]
 RULE = ("one case = one byte string offered to one decoder (random, or a structure-aware mutation of a valid encoding: truncation, bit flip, length/count field rewritten, another ciphersuite's encoding), "
         "or one protocol entry point called on an adversarial combination of otherwise valid peer messages (empty, oversized, duplicated, mutually inconsistent); every call runs under catch_unwind in a build with overflow checks and debug assertions; "
         "non-trivial = the call ran (every case); distinct = hash of the request")
